@@ -59,3 +59,61 @@ Definition axis_load_prim (f : h5) (grp : path) : result (list str * option (lis
   | [a] => axis_load f a
   | _ => RErr E_UNMODELLED
   end.
+
+(* ------------------------------------------------------------------ inside axis_load *)
+(* the two parsers of the defaults table; a parser table is a defaultdict: name -> parser *)
+Inductive pkind := P_general | P_vlen_list.
+Definition ptable := str -> pkind.
+Definition pdefault (d : pkind) : ptable := fun _ => d.
+Definition pset (t : ptable) (k : str) (v : pkind) : ptable := fun x => if lz_eqb x k then v else t x.
+Fixpoint pupdate (t : ptable) (l : list (str * pkind)) : ptable :=
+  match l with [] => t | (k, v) :: r => pupdate (pset t k v) r end.
+
+(* decode_ids(grp['ids'][:])  (decode_ids is pinned by AST hash) *)
+Definition h5_ids (f : h5) (grp : path) : result (list str) :=
+  bind (need_dset f (grp ++ [b_ids])) load_ids.
+
+(* [{} for i in range(len(ids))] *)
+Definition empty_rows (ids : list str) : list mdrow := map (fun _ => []) ids.
+
+(* a dataset parsed row by row with the chosen parser *)
+Definition parse_with (p : pkind) (d : dset) : result (list mdval) :=
+  match p with
+  | P_vlen_list =>
+    match d_kind d, d_shape d with
+    | KVStr, [n; w] => mapM parse_list_row (chunks w n (d_str d))
+    | _, _ => RErr E_UNMODELLED
+    end
+  | P_general =>
+    match d_kind d, d_shape d with
+    | KVStr, [_] => mapM (fun b => bind (dec b) (fun s => ROk (MStr s))) (d_str d)
+    | KI64, [_] | KI32, [_] => ROk (map MInt (d_num d))
+    | KF64, [_] => ROk (map MFloat (d_num d))
+    | KBool, [_] => ROk (map (fun z => MBool (negb (Z.eqb z 0))) (d_num d))
+    | _, _ => RErr E_UNMODELLED
+    end
+  end.
+
+(* the category loop of axis_load (pinned by AST hash): every dataset of grp['metadata'], in the
+   order the file lists them, its name unescaped, parsed with parser[category], the values zipped
+   onto the rows.  A row is a dict of which only membership and lookup are observed. *)
+Definition md_loop (f : h5) (grp : path) (parser : ptable) (md : list mdrow) : result (list mdrow) :=
+  bind (match grp with [a] => if has_group f [a; b_metadata] then ROk tt else RErr E_KEY | _ => RErr E_UNMODELLED end) (fun _ =>
+  bind (mapM (fun nd => bind (dec (fst nd)) (fun name =>
+                        let cat := unsanitize name in
+                        bind (parse_with (parser cat) (snd nd)) (fun vals => ROk (cat, vals))))
+             (children f (grp ++ [b_metadata]))) (fun cols =>
+  ROk (map (fun i => flat_map (fun cv => match nth_error (snd cv) i with
+                                         | Some v => [(fst cv, v)]
+                                         | None => []
+                                         end) cols) (seq 0 (length md))))).
+
+(* md if any(md) else None *)
+Definition any_row (md : list mdrow) : bool := existsb (fun r => match r with [] => false | _ => true end) md.
+
+(* {cat: ensure_utf8(val[0]) for cat, val in grp['group-metadata'].items()}  (ensure_utf8 pinned) *)
+Definition gmd_read (f : h5) (grp : path) : result (list (str * str)) :=
+  bind (match grp with [a] => if has_group f [a; b_group_metadata] then ROk tt else RErr E_KEY | _ => RErr E_UNMODELLED end) (fun _ =>
+  mapM (fun nd => bind (dec (fst nd)) (fun name =>
+                  bind (match d_str (snd nd) with b :: _ => dec b | [] => RErr E_OTHER end) (fun v =>
+                  ROk (name, v)))) (children f (grp ++ [b_group_metadata]))).
